@@ -2176,11 +2176,14 @@ impl<R: Read> Vp8Decoder<R> {
             self.left_border = vec![129u8; 1 + 16];
         }
 
-        //do loop filtering
-        for mby in 0..self.mbheight as usize {
-            for mbx in 0..self.mbwidth as usize {
-                let mb = self.macroblocks[mby * self.mbwidth as usize + mbx];
-                self.loop_filter(mbx, mby, &mb);
+        //do loop filtering; a frame level of 0 turns the filter off for the whole frame,
+        //whatever the segment levels and deltas say
+        if self.frame.filter_level > 0 {
+            for mby in 0..self.mbheight as usize {
+                for mbx in 0..self.mbwidth as usize {
+                    let mb = self.macroblocks[mby * self.mbwidth as usize + mbx];
+                    self.loop_filter(mbx, mby, &mb);
+                }
             }
         }
 
